@@ -49,6 +49,10 @@ fn fv_text(v: &FieldValue) -> String {
 }
 
 fn run_meta(subject: &Schema, query: &str) -> Result<BTreeSet<Vec<(String, String)>>, String> {
+    run_meta_with(subject, query, BTreeMap::new())
+}
+
+fn run_meta_with(subject: &Schema, query: &str, args: BTreeMap<Arc<str>, FieldValue>) -> Result<BTreeSet<Vec<(String, String)>>, String> {
     let iq = match engine::compile(meta_schema(), query) {
         CompileOutcome::Ok(iq) => iq,
         CompileOutcome::Err(e) => return Err(format!("HARNESS: fixed meta query rejected: {e}")),
@@ -57,7 +61,7 @@ fn run_meta(subject: &Schema, query: &str) -> Result<BTreeSet<Vec<(String, Strin
     // the adapter borrows the schema; run inside a scope that owns both
     let rows = engine::catch(|| {
         let adapter = Arc::new(SchemaAdapter::new(subject));
-        let iter = trustfall_core::interpreter::execution::interpret_ir(adapter, iq, Arc::new(BTreeMap::new())).expect("no args");
+        let iter = trustfall_core::interpreter::execution::interpret_ir(adapter, iq, Arc::new(args)).expect("HARNESS: arguments of a fixed meta query rejected");
         iter.collect::<Vec<_>>()
     });
     match rows {
@@ -355,6 +359,84 @@ pub fn c20_case(bytes: &[u8], stats: &mut Stats, counting: bool) -> Verdict {
             Err(p) => return fail(format!("c20:introspection-panicked|{}", p.file()), p.render()),
         }
     }
+    // relations looked up through a static filter on the *neighbour's* name (`=` with one name, `one_of` with a few): the
+    // adapter may answer such edges from the filter's candidate hint instead of enumerating, and has to give the same pairs
+    {
+        let type_names: Vec<String> = doc.types.iter().filter(|t| t.name != doc.root).map(|t| t.name.clone()).collect();
+        let mut field_names: Vec<String> = doc.types.iter().filter(|t| t.name != doc.root).flat_map(|t| t.fields.iter().map(|f| f.name.clone())).collect();
+        field_names.sort();
+        field_names.dedup();
+        // (relation name, query with the filter on the neighbour's name, all pairs of the relation from the AST)
+        let mut relations: Vec<(&str, &str, Vec<(String, String)>, &Vec<String>)> = vec![];
+        let mut implementer = vec![];
+        let mut implements = vec![];
+        let mut property = vec![];
+        let mut edge = vec![];
+        let mut target = vec![];
+        for t in doc.types.iter().filter(|t| t.name != doc.root) {
+            if t.is_interface {
+                for sub in doc.strict_subtypes(&t.name) {
+                    implementer.push((t.name.clone(), sub));
+                }
+            }
+            for i in &t.implements {
+                implements.push((t.name.clone(), i.clone()));
+            }
+            for p in doc.properties(&t.name) {
+                property.push((t.name.clone(), p.name.clone()));
+            }
+            for e in doc.edges(&t.name) {
+                edge.push((t.name.clone(), e.name.clone()));
+                target.push((format!("{}.{}", t.name, e.name), e.ty.base.clone()));
+            }
+        }
+        relations.push(("implementer", "{ VertexType { a: name @output implementer { b: name @output @filter(op: \"OP\", value: [\"$x\"]) } } }", implementer, &type_names));
+        relations.push(("implements", "{ VertexType { a: name @output implements { b: name @output @filter(op: \"OP\", value: [\"$x\"]) } } }", implements, &type_names));
+        relations.push(("property", "{ VertexType { a: name @output property { b: name @output @filter(op: \"OP\", value: [\"$x\"]) } } }", property, &field_names));
+        relations.push(("edge", "{ VertexType { a: name @output edge { b: name @output @filter(op: \"OP\", value: [\"$x\"]) } } }", edge, &field_names));
+        let n_rel = relations.len();
+        let (rel, query, pairs, pool) = relations.swap_remove(c.below(n_rel));
+        let _ = target;
+        if !pool.is_empty() {
+            let use_list = c.chance(100);
+            let mut picked: Vec<String> = vec![pool[c.below(pool.len())].clone()];
+            if use_list {
+                for _ in 0..c.below(3) {
+                    picked.push(pool[c.below(pool.len())].clone());
+                }
+                if c.chance(60) {
+                    picked.push("NoSuchName".into());
+                }
+            }
+            let q = query.replace("OP", if use_list { "one_of" } else { "=" });
+            let value = if use_list {
+                FieldValue::List(picked.iter().map(|n| FieldValue::String(Arc::from(n.as_str()))).collect::<Vec<_>>().into())
+            } else {
+                FieldValue::String(Arc::from(picked[0].as_str()))
+            };
+            let got = match run_meta_with(&schema, &q, BTreeMap::from([(Arc::from("x"), value)])) {
+                Ok(r) => r,
+                Err(e) if e.starts_with("PANIC:") => return fail(format!("c20:introspection-panicked|{}", first_line(&e).chars().take(80).collect::<String>()), format!("{e}\nquery: {q}")),
+                Err(e) => return Verdict::HarnessBug(e),
+            };
+            let want_pairs: BTreeSet<Vec<(String, String)>> =
+                pairs.iter().filter(|(_, b)| picked.contains(b)).map(|(a, b)| fact(&[("a", a.clone()), ("b", b.clone())])).collect();
+            if counting {
+                stats.label(&format!("filtered_relation:{rel}"));
+                if !want_pairs.is_empty() {
+                    stats.label("filtered_relation_with_matches");
+                }
+            }
+            if got != want_pairs {
+                let missing: Vec<_> = want_pairs.difference(&got).take(3).collect();
+                let extra: Vec<_> = got.difference(&want_pairs).take(3).collect();
+                return fail(
+                    format!("c20:filtered-{rel}-differ"),
+                    format!("{rel} filtered by neighbour name {picked:?}: missing {missing:?}; unexpected {extra:?}\nquery: {q}"),
+                );
+            }
+        }
+    }
     // the introspection adapter itself satisfies the adapter contract
     let inv = engine::catch(|| check_adapter_invariants(meta_schema(), SchemaAdapter::new(&schema)));
     if let Err(p) = inv {
@@ -373,7 +455,9 @@ pub fn c20(ctx: &CheckCtx) -> i32 {
          fixed full-coverage queries against SchemaAdapter (vertex types directly and via Schema, properties with types and docs, \
          edges with target / to_many / at_least_one, parameters with type and JSON default, implements / implementer sets, \
          entrypoints directly and via Schema with their parameters, lookup by a generated name list so that the adapter's own \
-         candidate hints are exercised) compared as sets with facts computed from the AST; then \
+         candidate hints are exercised) compared as sets with facts computed from the AST; one of the relations implementer / \
+         implements / property / edge looked up through a static `=` or `one_of` filter on the neighbour's name (names taken from \
+         the schema) compared with the filtered pairs of the AST; then \
          check_adapter_invariants(meta_schema, SchemaAdapter) must pass. Non-trivial: schema with an interface hierarchy and a \
          parameter with a non-null default; distinct by SDL hash.",
     );
